@@ -24,7 +24,7 @@ SCENARIOS = {
     'thorough': [([2, 1], 'none'), ([2, 1, 2], 'asc'), ([1, 2], 'interleaved'), ([1, 1, 1], 'none'),
                  ([3, 2], 'desc'), ([1, 2, 1, 2], 'interleaved')],
 }
-RETRY_RULES = ['fieldsets', 'mixed-ident-unid', 'mixed-ident-id', 'missing-input', 'wrong-suffix', 'existing-output']
+RETRY_RULES = ['fieldsets', 'fieldset-metadata', 'mixed-ident-unid', 'mixed-ident-id', 'missing-input', 'wrong-suffix', 'existing-output']
 
 
 def _clean_probe(args):
@@ -154,7 +154,17 @@ def species_case(tmp, case):
         kw['associated_files'] = [(assoc, ['vf_c10_s2'])]
     store = TrajectoryStore.create(**kw)
     in_traj_s2 = lay == 'assoc-together'
-    store.add(traj(0, in_traj_s2))
+    try:
+        store.add(traj(0, in_traj_s2))
+    except Exception as ex:  # noqa: BLE001
+        # a VALID first trajectory (every species it carries defines the files' species slots) was refused
+        try:
+            store.close()
+        except Exception:  # noqa: BLE001
+            pass
+        gc.collect()
+        return {'outcome': 'valid-first-add-refused', 'nontrivial': True,
+                'violations': [V('valid-addition-refused', f'{tag}: the first, valid trajectory was refused: {type(ex).__name__}: {str(ex)[:200]}')]}
     items.append(0)
     if ses == 'append':
         store.close()
@@ -168,8 +178,11 @@ def species_case(tmp, case):
         in_traj_s2 = two
     try:
         if pos == 'after-good':
-            store.add(traj(len(items), in_traj_s2))
-            items.append(len(items))
+            try:
+                store.add(traj(len(items), in_traj_s2))
+                items.append(len(items))
+            except Exception as ex:  # noqa: BLE001
+                vio.append(V('valid-addition-refused', f'{tag}: a valid trajectory was refused: {type(ex).__name__}: {str(ex)[:200]}'))
         n_before = len(items)
         refused = None
         try:
@@ -334,14 +347,14 @@ def retry_case(tmp, case):
     for s, sz in enumerate(sizes):
         want = list(range(g, g + sz))
         g += sz
-        if s == pos and rule in ('fieldsets', 'mixed-ident-unid', 'mixed-ident-id', 'missing-input', 'wrong-suffix'):
+        if s == pos and rule in ('fieldsets', 'fieldset-metadata', 'mixed-ident-unid', 'mixed-ident-id', 'missing-input', 'wrong-suffix'):
             continue
         got = mm.read_plain(paths[s])
         if got != want:
             vio.append(V('refused-merge-moved-or-damaged-input', f'{tag}: input {s} reads {got} at its original path after the refusal, expected {want} ({refusal})'))
     # correct the cause, then the same call with the same output path must succeed
     scheme = 'asc' if rule == 'mixed-ident-unid' else 'none'
-    if rule in ('fieldsets', 'mixed-ident-unid', 'mixed-ident-id', 'missing-input'):
+    if rule in ('fieldsets', 'fieldset-metadata', 'mixed-ident-unid', 'mixed-ident-id', 'missing-input'):
         if paths[pos].exists():
             paths[pos].unlink()
         ids = mm.id_table(sizes, scheme)
